@@ -138,6 +138,8 @@ type Exec struct {
 	spawned []*FuncV
 
 	curFacts  map[*Term]*Term
+	seedFacts map[*Term]*Term // facts implied by the hypotheses of the case (each is also an obligation of the split's own lemma)
+	notApplicable []string
 	gobj      *Object
 	globals   map[*ssa.Global]*Object
 	initDone  map[*ssa.Package]bool
